@@ -80,12 +80,9 @@ Consume ==
                                          \* what the operation read is the version committed when it took the lock
                                          /\ ("seen" \in DOMAIN e) => hseen[e.who] = e.seen
                 [] e.ev = "close"     -> Close(e.who)
-                \* a process that is not SQLite write-locks the shared range directly (no PENDING step): the only way
-                \* to make a reader's SECOND lock step fail while its first one succeeds
-                [] e.ev = "f_lock"    -> /\ CanLock(lk, e.who, "shrd", "W") /\ lk' = SetLock(lk, e.who, "shrd", "W")
-                                         /\ UNCHANGED <<fds, hpc, belief, hres, hseen, nops, wst, wpc, fver, writing, last>>
-                [] e.ev = "f_unlock"  -> /\ lk' = SetLock(lk, e.who, "shrd", "N")
-                                         /\ UNCHANGED <<fds, hpc, belief, hres, hseen, nops, wst, wpc, fver, writing, last>>
+                \* a process that is not SQLite write-locks the shared range directly (Locks.tla: FLock / FUnlock)
+                [] e.ev = "f_lock"    -> FLock(e.who, "shrd")
+                [] e.ev = "f_unlock"  -> FUnlock(e.who, "shrd")
                 [] e.ev = "w_rest"    -> wpc[e.who] \in {"idle"} /\ fver = e.fver /\ UNCHANGED vars
                 [] OTHER -> FALSE
            /\ att' = IF e.ev \in {"done", "rlock_err"} THEN [att EXCEPT ![e.who] = FALSE] ELSE att
